@@ -4,6 +4,11 @@ manifest is always valid)."""
 import json, sys
 
 CHECKS = {
+ "C15": dict(
+   text="Memory-safety discipline of the decoders, decided for every function in the decoder call closure: each index, slice, fixed-size decode destination and fixed-width read is discharged by a guard from a table of sound idioms holding on every feasible path, or reported; no explicit panic is reachable (six named exceptions, each with its precondition); pointers decoded from the wire are dereferenced only after a nil test; the recursive decoders advance their cursor before recursing.",
+   note="Does not decide the behaviour of the CBOR and msgp libraries on hostile input (third-party). An idiom outside the guard table is reported as a violation (possible false alarm, by design). Termination is decided only as 'one element consumed per recursive call'.",
+   technique="guard-table discharge of bounds obligations over go/ssa with feasible-path facts, call-closure panic reachability, nil-test dominance",
+   ref="DESIGN.md section 5 C15"),
  "C09": dict(
    text="Structural necessary conditions for weight/ownership/root following content, decided on every path of insert, delete, getBlockProof and markToCollect: a collapsed position is resolved before it is interpreted as another kind or as empty; the weight change of the recursive descent is folded into the branch weight and returned; every store to a hashed field is accompanied by dirty=true; the weight-ordered descent enters a child only under block <= child weight and subtracts skipped weights.",
    note="Does not decide the numeric equalities themselves (total weight, ownership interval, root equality with an independent computation).",
